@@ -48,12 +48,12 @@ var Check = &run.Check{
 		"and the second file declares one struct/interface/exported function resp. class/capitalised function under a name the first file declares too, with members of its own - Go: same package clause, e.g. two `package main`, in 2/3 of these; " +
 		"the flattened model then has to list such a name as often as it is declared, each entry with its own members); " +
 		"even index: Python module (imports `import a`, `import a.b.c`, `import a.b as c`, `import a, b`, `from a import b, c`, `from a import b as c`, `from a import (b, c,)` on one or several lines, `from . import x`, `from ..p import x`, `from a import *`; " +
-		"0-2 decorated classes with 0-3 decorated methods, decorated/async functions, nested defs up to depth 2, class attributes, docstrings and strings that look like declarations, comments, multi-line bracketed statements, indent 2/4/tab, CRLF (1 in 8), no final newline, empty and blank-only lines inside indented blocks (1 in 3)). " +
+		"0-2 decorated classes with 0-3 decorated methods, decorated/async functions, nested defs up to depth 2, class attributes, docstrings and strings that look like declarations, comments, multi-line bracketed statements, indent 2/4/tab, CRLF (1 in 8), no final newline, a last line of bare indentation without newline (1 in 16), empty and blank-only lines inside indented blocks (1 in 3), one physical line of 64-73 KiB - string literal or comment - before further declarations (1 in 30)). " +
 		"Modules stay within 30 lexer events (logical lines + INDENT + DEDENT); 1 module in 40 is 'large' (median 69, up to ~300 events; either structured or 33-70 one-line declarations) and is parsed only in fresh child processes. " +
 		"Every module first has to pass coca's own Python parser (languages/python + counting error listener); a reject is inconclusive. " +
 		"odd index: Go file accepted by go/parser (0-5 imports in 3 layouts, aliases, `_`; 1-6 structs with 0-5 field lines incl. `a, b T`, tags, embedded fields, pointer/slice/map/func/chan/qualified types; 0-3 interfaces incl. empty and embedding ones; single or grouped type declarations; " +
 		"import paths as interpreted or raw string literals; blank-identifier parameters and fields; methods on value/pointer/unnamed receivers placed below or above their type; 0-4 free functions incl. `a, b T` and variadic parameters, named results, declarations without a body; bodies of package-qualified and receiver/parameter call statements (one in five with a function literal as last argument that holds further call statements, nested up to depth 2), unqualified calls, defer, := and = assignments, returns; " +
-		"one type expression in 14 (parameters, struct fields) is an interface type written in place with 1-2 methods). " +
+		"one type expression in 14 (parameters, struct fields) is an interface type written in place with 1-2 methods; one file in 12 contains, below the package clause, a line reading `// Code generated ... DO NOT EDIT.` - in a comment quoting the header or on its own line inside a raw string passed to a call statement). " +
 		"Observed: pyapp.PythonIdentApp.Analysis, goapp.GoIdentApp.Analysis or ast_go.CocagoParser.ProcessString per file; analysis.CommonAnalysis on the directory; for every 4th (quick) / 8th (thorough) case of each language the real mains `coca-python analysis -p` / `coca-golang analysis -p` (coca_reporter/pydeps.json, godeps.json). " +
 		"non-trivial = Python: a class with a method + a decorator + an import; Go: >= 2 type declarations + a method + an asserted call statement; distinct = hash of the structural shape of the primary file (kinds, counts, order, layout; no names) and the number of files",
 	Assumptions: []string{
@@ -388,7 +388,7 @@ func pyCase(c *run.Ctx, o *run.Outcome, useCLI bool) {
 						size = "large"
 					}
 					o.SetInconclusive(fmt.Sprintf("generator reject: coca's Python parser reports syntax errors on a valid %s module", size))
-					o.Sample = map[string]interface{}{"rejected_module": m.Text, "lexer_events": m.LexEvents, "errors": nerr, "first_error": first}
+					o.Sample = map[string]interface{}{"rejected_module": truncate(m.Text, 6000), "lexer_events": m.LexEvents, "errors": nerr, "first_error": first}
 					return
 				}
 				continue
@@ -505,7 +505,7 @@ func pyCase(c *run.Ctx, o *run.Outcome, useCLI bool) {
 	o.Count("events_observed", len(flat))
 
 	if c.Index < 64 {
-		o.Sample = map[string]interface{}{"file": prim.File, "text": prim.Text, "lexer_events": prim.LexEvents, "files_in_case": len(accepted),
+		o.Sample = map[string]interface{}{"file": prim.File, "text": truncate(prim.Text, 6000), "lexer_events": prim.LexEvents, "files_in_case": len(accepted),
 			"observed_per_file_model": observed[prim.File], "flat_entries": len(flat), "via": where}
 	}
 }
@@ -632,6 +632,15 @@ func pyDimensions(o *run.Outcome, m *gopygen.PyModule) {
 	}
 	if m.BlankInBlocks {
 		o.Count("dim_py_blank_lines_inside_blocks", 1)
+	}
+	if m.LongLine {
+		o.Count("dim_py_module_with_line_of_64KiB_or_more", 1)
+	}
+	if m.TrailIndent != "" {
+		o.Count("dim_py_last_line_bare_indentation_without_newline", 1)
+		if len(m.Items) == 1 {
+			o.Count("dim_py_single_declaration_module_ending_in_bare_indentation", 1)
+		}
 	}
 	if m.CRLF && (m.BlankInBlocks || strings.Contains(m.Text, "\r\n\r\n"+m.Indent)) {
 		o.Count("dim_py_crlf_with_blank_line_inside_a_block", 1)
@@ -916,6 +925,12 @@ func goDimensions(o *run.Outcome, f *gopygen.GoFile) {
 				o.Count("dim_go_call_statements_inside_function_literals", 1)
 			}
 		}
+	}
+	switch f.GeneratedLine {
+	case 1:
+		o.Count("dim_go_code_generated_line_in_comment_below_package_clause", 1)
+	case 2:
+		o.Count("dim_go_code_generated_line_in_raw_string", 1)
 	}
 	o.Count("dim_go_inline_interface_types_with_methods", f.InlineIfaces)
 	if f.InlineIfaces > 0 {
